@@ -122,6 +122,23 @@ def check(rep, tier, seed, replay):
         if out != base:
             rep.violation("oracle", {"case": l, "why": "emitted programs depend on the number of worker threads (count / hash of the harvest differ)",
                                      "with_this_pool": out, "with_default_pool": base})
+    # a sub-tree whose hash differs from the model's: list it on both sides and name a program that
+    # is emitted but not in the model's tree (or the other way round); the model's tree is the
+    # declarative one (tree_complete_sound), so such a program is a concrete failing output
+    for m in mism:
+        if m["case"].startswith("treehashtask ") and not any(v.get("found_input") for v in rep.violations):
+            a = m["case"].split(" ", 1)[1]
+            try:
+                real = set(core.run_harness([f"treelisttask {a}"], seq=True)[0].split(";"))
+                mod = set(core.run_driver([f"treelisttask {a}"])[0].split(";"))
+            except Exception as e:          # too large to list: keep the hash mismatch only
+                core.log("[C10] sub-tree listing failed:", str(e)[:200])
+                continue
+            extra, missing = sorted(real - mod)[:3], sorted(mod - real)[:3]
+            if extra or missing:
+                rep.violation("oracle", {"case": f"treelisttask {a}", "why": "the emitted sub-tree differs from the declarative tree (Lean model, tree_complete_sound)",
+                                         "emitted": len(real), "declarative": len(mod), "emitted_but_not_in_the_tree_e.g.": extra,
+                                         "in_the_tree_but_not_emitted_e.g.": missing})
     for m in mism[:50]:
         rep.violation("correspondence", {k: v[:600] for k, v in m.items()}, found_input=False)
     rep.add_counts(len(all_lines), len(distinct))
